@@ -647,7 +647,9 @@ func (ctx HelperContext) SimplifyUnusedExpr(expr Expr, unsupportedFeatures compa
 							continue
 						} else {
 							// Replace values without side effects with "0" because it's short
+							// (this must no longer be a getter, setter, or method)
 							property.ValueOrNil.Data = &ENumber{}
+							property.Kind = PropertyField
 						}
 					}
 					properties = append(properties, property)
